@@ -1148,6 +1148,8 @@ impl<T: Serialize + for<'de> Deserialize<'de> + Clone + PartialEq + Send + Sync 
             let entry: WalEntry = match postcard::from_bytes(&buffer) {
                 Ok(e) => e,
                 Err(_) => {
+                    // a damaged record may have belonged to the pending batch
+                    pending_batch = None;
                     stats.corruption_events.push(CorruptionEvent {
                         file_path: path.to_path_buf(),
                         corruption_type: CorruptionType::InvalidFormat,
@@ -1161,6 +1163,8 @@ impl<T: Serialize + for<'de> Deserialize<'de> + Clone + PartialEq + Send + Sync 
 
             // Verify HMAC
             if !self.verify_wal_entry(&entry) {
+                // a damaged record may have belonged to the pending batch
+                pending_batch = None;
                 stats.corruption_events.push(CorruptionEvent {
                     file_path: path.to_path_buf(),
                     corruption_type: CorruptionType::ChecksumMismatch,
